@@ -24,3 +24,14 @@ def negative_sine_rotation(inputs, config):
     if 'r_s' in inputs:
         return inputs['r_s'] < 0
     return False
+
+
+def rescale_scale_times_length_is_one(inputs, config):
+    """the recorded C01 finding: a rescale whose scale * axis length is exactly
+    1 on some axis (index-space scale factor (s*len - 1)/(len - 1) = 0)."""
+    shape = (2, 3, 2) if str(config.get('op', '')).endswith('3d') else (3, 4)
+    for a, n in enumerate(shape):
+        v = inputs.get('s_%d' % a)
+        if v is not None and abs(v * n - 1.0) < 1e-9:
+            return True
+    return False
